@@ -10,7 +10,7 @@ ID = 'C02'
 READY = True
 LEVEL_TEXT = ('Partial. Proved (Coq, for every BC mask, connectivity, number of fields and element blocks): each entry of the assembled matrix is the '
               'sum of the block entries (a,b) with both dofs unknown and (unknown(b), unknown(a)) = (i,j) (duplicates summed, transposed placement); '
-              'it is the restriction to the unknown dofs of the global scatter; with symmetric blocks it is symmetric and equals '
+              'it is the restriction to the unknown dofs of the global scatter; the block integral of integrate_over_block is the sum over the listed elements of their values against their OWN volumes, invariant under reordering of the block list, additive over partitions (gather model tied by exact correspondence); with symmetric blocks it is symmetric and equals '
               'P^T(sum_e G_e^T K_e G_e)P; without symmetry it is the transpose (refuted with a witness); per-block scatter of states / element '
               'Hessians and per-block energy sums reproduce the unblocked results when the blocks cover / partition the elements. '
               'Not proved: that jax.hessian of the element energy is its Hessian and the chain rule through create_field -- that half is compared on '
@@ -29,7 +29,7 @@ ASSUMPTIONS = ['node ids in range, rectangular connectivity, components < number
                'element blocks are symmetric (true for autodiff Hessians) for the symmetry / P^T K P theorems; stated as a hypothesis',
                'chain rule through the affine map create_field and correctness of jax.hessian: not proved, compared numerically',
                'theorems over exact reals / integers; binary64 summation order differences are covered by the L2 tolerance']
-RULE = ('L1: seeded random connectivity tables / small structured meshes, 1..3 fields, the C14 BC patterns, random NON-symmetric integer element blocks '
+RULE = ('gather: integer-valued FunctionSpace arrays (every per-element array distinct per element) through the real evaluate_on_block / integrate_over_block with blocks given as slice(None), python slices, permuted / reversed consecutive ranges, unsorted and sorted subsets, vs the model (exact); L1 twins: a second assembly on the same mesh with another DofManager of equal counts, then the first one again. L1: seeded random connectivity tables / small structured meshes, 1..3 fields, the C14 BC patterns, random NON-symmetric integer element blocks '
         'through the real DofManager + assemble_sparse_stiffness_matrix vs the model (exact); random .at[ids].set block loops vs the model. '
         'L2: small distorted structured meshes (order 1..2, shuffled element numbering), random BC node sets, random displacement; materials '
         'neo-Hookean, linear elastic, J2 (state produced by a previous load step); plane strain / axisymmetric; single / multi block; static / Newmark. '
@@ -37,6 +37,7 @@ RULE = ('L1: seeded random connectivity tables / small structured meshes, 1..3 f
 IMPORTS = ['From OV.model Require Import M_C14_Dof M_C02_Assembly.']
 
 RTOL = 1e-9
+LAST = {}
 
 
 # ============================================================================= L1: assembler and scatter vs the model
@@ -44,7 +45,7 @@ RTOL = 1e-9
 def gen_l1(ctx):
     r = ctx.rng('l1')
     cases = []
-    for i in range(ctx.n(24, 240)):
+    for i in range(ctx.n(18, 240)):
         dim = r.choice([1, 2, 2, 3])
         if i % 4 == 0:
             case = dict(src='structured', Nx=r.randrange(2, 4), Ny=r.randrange(2, 4), order=r.choice([1, 1, 2]), dim=dim)
@@ -60,6 +61,8 @@ def gen_l1(ctx):
         case['kind'] = D.KINDS[i % len(D.KINDS)]
         case['bcseed'] = r.randrange(1 << 30)
         cases.append(case)
+        if i % 3 == 1:
+            cases.append(dict(case, twin=True))      # second assembly on the same mesh with another DofManager of equal counts
     return cases
 
 
@@ -67,19 +70,32 @@ def run_l1(case):
     import numpy as onp
     import optimism  # noqa: F401
     from optimism import FunctionSpace, SparseMatrixAssembler
-    fs, nNodes, conns, ebcs = D.build(case)
     dim = case['dim']
+    ints = lambda a: [int(x) for x in onp.asarray(a).ravel()]
+    first = None
+    if case.get('twin'):
+        # history: assemble first with the untwinned DofManager (same mesh, same counts, same shapes), with the SAME block values
+        caseA = {k: v for k, v in case.items() if k != 'twin'}
+        fsA, _, connsA, ebcsA = D.build(caseA)
+        dmA = FunctionSpace.DofManager(fsA, dim, [FunctionSpace.EssentialBC(nodeSet=n, component=c) for (n, _, c) in ebcsA])
+    fs, nNodes, conns, ebcs = D.build(case)
     dm = FunctionSpace.DofManager(fs, dim, [FunctionSpace.EssentialBC(nodeSet=n, component=c) for (n, _, c) in ebcs])
     r = random.Random(case['bcseed'] ^ 0xbeef)
     nE, npe = len(conns), len(conns[0])
     nd = npe * dim
     kv = [[r.randrange(-9, 10) for _ in range(nd * nd)] for _ in range(nE)]       # non-symmetric integer blocks
     kValues = onp.array(kv, dtype=float).reshape(nE, npe, dim, npe, dim)
+    if case.get('twin'):
+        KA = SparseMatrixAssembler.assemble_sparse_stiffness_matrix(kValues, onp.asarray(fsA.mesh.conns), dmA)
+        first = ints(KA.toarray()) if dmA.get_unknown_size() else []
     K = SparseMatrixAssembler.assemble_sparse_stiffness_matrix(kValues, onp.asarray(fs.mesh.conns), dm)
-    ints = lambda a: [int(x) for x in onp.asarray(a).ravel()]
+    changed = False
+    if first is not None:
+        KA2 = SparseMatrixAssembler.assemble_sparse_stiffness_matrix(kValues, onp.asarray(fsA.mesh.conns), dmA)
+        changed = (ints(KA2.toarray()) if dmA.get_unknown_size() else []) != first
     nu = int(dm.get_unknown_size())
     dense = ints(K.toarray()) if nu else []
-    return dict(nNodes=nNodes, dim=dim, conns=conns, ebcs=ebcs, kv=kv, nu=nu, shape=[int(x) for x in K.shape],
+    return dict(nNodes=nNodes, dim=dim, conns=conns, ebcs=ebcs, kv=kv, nu=nu, shape=[int(x) for x in K.shape], first_changed=changed,
                 rows=ints(dm.HessRowCoords), cols=ints(dm.HessColCoords),
                 vals=ints(kValues.reshape(nE, nd, nd)[dm.hessian_bc_mask]), dense=dense,
                 isBc=ints(dm.isBc), d2u=ints(dm.dofToUnknown), unk=ints(dm.unknownIndices))
@@ -89,6 +105,8 @@ def l1_conclusions(o):
     """C02_assembly_entries / _is_restriction evaluated on the implementation's matrix (integer blocks: exact)"""
     bad = []
     nu, dim = o['nu'], o['dim']
+    if o.get('first_changed'):
+        bad.append('re-assembling with the first DofManager after assembling with a second one of equal counts gives a different matrix')
     if o['shape'] != [nu, nu]:
         return ['assembled matrix has shape %s, expected (%d, %d)' % (o['shape'], nu, nu)]
     want = [[0] * nu for _ in range(nu)]
@@ -150,6 +168,96 @@ def run_scatter(case):
     return [int(x) for x in onp.asarray(arr)]
 
 
+# ============================================================================= gather semantics of evaluate_on_block / integrate_over_block
+
+BLOCK_FORMS = ['slice_none', 'perm_range', 'perm_all', 'unsorted_subset', 'sorted_subset', 'reversed_range', 'single', 'py_slice']
+
+
+def gen_gather(ctx):
+    r = ctx.rng('gather')
+    out = []
+    for i in range(ctx.n(24, 320)):
+        out.append(dict(ne=r.randrange(1, 11), nq=r.randrange(1, 4), nNodes=r.randrange(3, 9), seed=r.randrange(1 << 30),
+                        form=BLOCK_FORMS[i % len(BLOCK_FORMS)]))
+    return out
+
+
+def run_gather(case):
+    """integer-valued FunctionSpace arrays with a different value on every (element, quadrature point), so that gathering ANY of
+    the per-element arrays (states, shapes, shapeGrads, vols, conns) with a wrong or differently ordered index changes the result"""
+    import numpy as onp
+    import jax.numpy as np
+    import optimism  # noqa: F401
+    from optimism import FunctionSpace, Mesh, QuadratureRule
+    rs = onp.random.RandomState(case['seed'] % (1 << 31))
+    r = random.Random(case['seed'])
+    ne, nq, nN = case['ne'], case['nq'], case['nNodes']
+    shapes = rs.randint(-3, 4, size=(ne, nq, 3)).astype(float)
+    grads = rs.randint(-3, 4, size=(ne, nq, 3, 2)).astype(float)
+    vols = rs.randint(1, 10, size=(ne, nq)).astype(float)
+    states = rs.randint(-9, 10, size=(ne, nq, 1)).astype(float)
+    coords = rs.randint(-5, 6, size=(nN, 2)).astype(float)
+    conns = rs.randint(0, nN, size=(ne, 3))
+    U = rs.randint(-9, 10, size=(nN,)).astype(float)
+    form = case['form']
+    if form == 'slice_none':
+        ids, block = list(range(ne)), slice(None)
+    elif form == 'py_slice':
+        a = r.randrange(0, ne)
+        b = r.randrange(a + 1, ne + 1)
+        ids, block = list(range(a, b)), slice(a, b)
+    else:
+        if form in ('perm_range', 'reversed_range'):
+            a = r.randrange(0, max(1, ne - 1))
+            b = r.randrange(min(ne, a + 2), ne + 1)
+            ids = list(range(a, b))
+            if form == 'reversed_range':
+                ids.reverse()
+            else:
+                r.shuffle(ids)
+        elif form == 'perm_all':
+            ids = list(range(ne))
+            r.shuffle(ids)
+        elif form == 'single':
+            ids = [r.randrange(ne)]
+        else:
+            ids = r.sample(range(ne), r.randrange(1, ne + 1))
+            if form == 'sorted_subset':
+                ids.sort()
+        block = np.array(onp.array(ids, dtype=int))
+    mesh = Mesh.Mesh(np.array(coords), np.array(conns), np.arange(nN), None, None, {'b': np.arange(ne)}, None, None)
+    fs = FunctionSpace.FunctionSpace(np.array(shapes), np.array(vols), np.array(grads), mesh,
+                                     QuadratureRule.create_quadrature_rule_on_triangle(1), False)
+    func = lambda u, dudx, q, x, dt: 3 * u + 5 * dudx[0] + 7 * dudx[1] + 11 * q[0] + 13 * x[0] + 17 * x[1]
+    vals = onp.asarray(FunctionSpace.evaluate_on_block(fs, np.array(U), np.array(states), 0.0, func, block))
+    integ = float(FunctionSpace.integrate_over_block(fs, np.array(U), np.array(states), 0.0, func, block))
+    # per-element reference values, computed from the element's own rows only
+    kv = []
+    for e in range(ne):
+        ue, xe = U[conns[e]], coords[conns[e]]
+        row = []
+        for q in range(nq):
+            u = shapes[e, q] @ ue
+            g = ue @ grads[e, q]
+            x = shapes[e, q] @ xe
+            row.append(int(3 * u + 5 * g[0] + 7 * g[1] + 11 * states[e, q, 0] + 13 * x[0] + 17 * x[1]))
+        kv.append(row)
+    return dict(ids=ids, kv=kv, vl=[[int(v) for v in row] for row in vols], vals=[int(v) for v in vals.ravel()], shape=list(vals.shape),
+                integ=integ)
+
+
+def gather_conclusions(o):
+    """C02_integrate_over_block_gather evaluated on the implementation's numbers (exact: integers)"""
+    bad = []
+    want = [v for i in o['ids'] for v in o['kv'][i]]
+    if o['shape'] != [len(o['ids']), len(o['kv'][0])] or o['vals'] != want:
+        bad.append('evaluate_on_block rows are not the kernel values of the listed elements in block order: got %s, expected %s' % (o['vals'][:12], want[:12]))
+    tot = sum(a * b for i in o['ids'] for a, b in zip(o['kv'][i], o['vl'][i]))
+    if o['integ'] != float(tot):
+        bad.append('integrate_over_block = %r, the sum over the listed elements of values times their own volumes is %d' % (o['integ'], tot))
+    return bad
+
+
 # ============================================================================= L2: K vs dense Hessian on the real mechanics functions
 
 MATERIALS = {
@@ -176,24 +284,36 @@ def gen_l2(ctx):
         c.update(kw)
         cfgs.append(c)
 
-    mk('static', material='neohookean', mode='plane strain', order=1, Nx=3, Ny=3)
-    mk('static', material='neohookean_coupled', mode='axisymmetric', order=2, Nx=2, Ny=3)
+    mk('static', material='neohookean', mode='plane strain', order=1, mesh='delaunay')                 # unstructured mesh
+    mk('static', material='neohookean_coupled', mode='axisymmetric', order=2, Nx=2, Ny=3, qdeg=r.choice([3, 4, 5]))
     mk('static', material='j2', mode='plane strain', order=1)
-    mk('static', material='linear', mode='axisymmetric', order=1)
-    mk('multiblock', material='neohookean', nblocks=3, Nx=3, Ny=3)
-    mk('multiblock', material='j2', nblocks=2, Nx=2, Ny=3, dense=(ctx.tier != 'quick'))
+    mk('static', material='linear', mode='axisymmetric', order=r.choice([3, 4]), Nx=2, Ny=2, twice=True)   # high order + multi-call history
+    mk('static', material='linear', mode='plane strain', order=1, Nx=2, Ny=2, bc='none')              # no essential BC at all
+    # blocks list their elements in arbitrary order; 'permuted_range': a consecutive id range in non-ascending order
+    mk('multiblock', material='neohookean', nblocks=3, Nx=3, Ny=3, blockorder='permuted_range')
+    mk('multiblock', material='j2', nblocks=2, Nx=2, Ny=3, dense=(ctx.tier != 'quick'), blockorder=r.choice(['shuffled', 'permuted_range']))
     mk('newmark', material='neohookean', upred=False, Nx=3, Ny=3)
-    mk('newmark', material='linear', upred=True, mode='axisymmetric')
+    mk('newmark', material='linear', upred=True, mode='axisymmetric', beta=r.choice([0.3, 0.2]), gamma=0.6, dt=r.choice([0.05, 0.2]))
     mk('newmark', material='neohookean', upred=True, Nx=3, Ny=3)            # F6 (fixed): must now agree
-    for fac in ('create_mechanics_functions', 'create_dynamics_functions', 'create_multi_block_mechanics_functions'):
-        mk('pressure', factory=fac, degree=r.choice([0, 1]), Nx=2, Ny=2)      # F5 (fixed): must now work and agree
+    modes = ['plane strain', 'axisymmetric', 'plane strain']
+    r.shuffle(modes)
+    for fac, md in zip(('create_mechanics_functions', 'create_dynamics_functions', 'create_multi_block_mechanics_functions'), modes):
+        if fac == 'create_multi_block_mechanics_functions':
+            md = 'plane strain'                                               # axisymmetric multi-block raises NotImplementedError (not advertised)
+        mk('pressure', factory=fac, degree=r.choice([0, 1]), Nx=2, Ny=2, mode=md)      # F5 (fixed): must now work and agree
     if ctx.tier != 'quick':
         mats = ['neohookean', 'neohookean_coupled', 'linear', 'j2']
         for _ in range(ctx.n(0, 14)):
             mk('static', material=r.choice(mats), mode=r.choice(['plane strain', 'axisymmetric']), order=r.choice([1, 1, 2]),
                amp=r.choice([0.01, 0.05, 0.1]))
-        for _ in range(ctx.n(0, 5)):
-            mk('multiblock', material=r.choice(mats), nblocks=r.choice([2, 3]), order=r.choice([1, 2]), Nx=3, Ny=r.randrange(2, 4))
+        for _ in range(ctx.n(0, 6)):
+            mk('multiblock', material=r.choice(mats), nblocks=r.choice([2, 3]), order=r.choice([1, 2]), Nx=3, Ny=r.randrange(2, 4),
+               blockorder=r.choice(['shuffled', 'permuted_range', 'sorted']), mesh=r.choice([None, 'delaunay']))
+        mk('static', material='neohookean', mode='plane strain', order=4, Nx=2, Ny=2, twice=True)
+        mk('static', material='neohookean', mode='axisymmetric', order=3, Nx=2, Ny=2, qdeg=6)
+        mk('static', material='j2', mode='axisymmetric', order=2, mesh='delaunay', twice=True)
+        for fac in ('create_mechanics_functions', 'create_dynamics_functions'):
+            mk('pressure', factory=fac, degree=1, Nx=2, Ny=2, mode='axisymmetric', order=2)
         for _ in range(ctx.n(0, 6)):
             m = r.choice(mats)
             mk('newmark', material=m, upred=(m == 'linear' or r.random() < 0.3), mode=r.choice(['plane strain', 'axisymmetric']),
@@ -211,10 +331,23 @@ def setup_problem(cfg):
     from optimism import Mesh, FunctionSpace, QuadratureRule
     r = random.Random(cfg['seed'])
     Nx, Ny, order = cfg['Nx'], cfg['Ny'], cfg['order']
-    coords, conns = Mesh.create_structured_mesh_data(Nx, Ny, [0.5, 1.5], [0.0, 1.0])       # x > 0: valid radius for axisymmetry
-    coords = onp.array(coords)
-    hx, hy = 1.0 / (Nx - 1), 1.0 / (Ny - 1)
-    coords = coords + onp.array([[r.uniform(-0.15, 0.15) * hx, r.uniform(-0.15, 0.15) * hy] for _ in range(coords.shape[0])])   # distorted
+    if cfg.get('mesh') == 'delaunay':
+        # unstructured triangulation (random Delaunay, counter-clockwise, random cyclic vertex rotation), shifted to x > 0
+        from scipy.spatial import Delaunay
+        pts = onp.array([[0.0, 0.0], [1.0, 0.0], [1.0, 1.0], [0.0, 1.0]] + [[r.uniform(0.1, 0.9), r.uniform(0.1, 0.9)] for _ in range(r.randrange(2, 5))])
+        tri = onp.array(Delaunay(pts).simplices, dtype=int)
+        keep = []
+        for c in tri:
+            a, b, d = pts[c[0]], pts[c[1]], pts[c[2]]
+            j = (b[0] - a[0]) * (d[1] - a[1]) - (b[1] - a[1]) * (d[0] - a[0])
+            if abs(j) > 1e-6:
+                keep.append(c if j > 0 else c[[0, 2, 1]])
+        coords, conns = pts + onp.array([0.5, 0.0]), onp.array(keep, dtype=int)
+    else:
+        coords, conns = Mesh.create_structured_mesh_data(Nx, Ny, [0.5, 1.5], [0.0, 1.0])       # x > 0: valid radius for axisymmetry
+        coords = onp.array(coords)
+        hx, hy = 1.0 / (Nx - 1), 1.0 / (Ny - 1)
+        coords = coords + onp.array([[r.uniform(-0.15, 0.15) * hx, r.uniform(-0.15, 0.15) * hy] for _ in range(coords.shape[0])])   # distorted
     conns = onp.array(conns)
     perm = list(range(conns.shape[0]))
     r.shuffle(perm)                                      # arbitrary element numbering
@@ -235,12 +368,27 @@ def setup_problem(cfg):
         r.shuffle(ids)
         k = cfg['nblocks']
         cuts = sorted(r.sample(range(1, nE), k - 1))
-        parts = [sorted(ids[a:b]) for a, b in zip([0] + cuts, cuts + [nE])]
+        order_ = cfg.get('blockorder', 'shuffled')
+        if order_ == 'permuted_range':
+            # every block is a CONSECUTIVE range of element ids listed in a random (non-ascending) order
+            ids = list(range(nE))
+            parts = [ids[a:b] for a, b in zip([0] + cuts, cuts + [nE])]
+            for p_ in parts:
+                while len(p_) > 1 and p_ == sorted(p_):
+                    r.shuffle(p_)
+        elif order_ == 'sorted':
+            parts = [sorted(ids[a:b]) for a, b in zip([0] + cuts, cuts + [nE])]
+        else:                                   # arbitrary subsets in arbitrary order
+            parts = [ids[a:b] for a, b in zip([0] + cuts, cuts + [nE])]
+        LAST['blocks'] = parts
         blocks = {'b%d' % i: np.array(onp.array(p, dtype=int)) for i, p in enumerate(parts)}
     mesh = Mesh.Mesh(mesh.coords, mesh.conns, mesh.simplexNodesOrdinals, mesh.parentElement, mesh.parentElement1d, blocks, nodeSets, None)
-    quad = QuadratureRule.create_quadrature_rule_on_triangle(degree=max(1, 2 * order - 1))
+    quad = QuadratureRule.create_quadrature_rule_on_triangle(degree=cfg.get('qdeg', max(1, 2 * order - 1)))
     fs = FunctionSpace.construct_function_space(mesh, quad, mode2D='axisymmetric' if cfg['mode'] == 'axisymmetric' else 'cartesian')
-    dm = FunctionSpace.DofManager(fs, 2, [FunctionSpace.EssentialBC('s0', 0), FunctionSpace.EssentialBC('s1', 1)])
+    if cfg.get('bc') == 'none':
+        dm = FunctionSpace.DofManager(fs, 2, [])
+    else:
+        dm = FunctionSpace.DofManager(fs, 2, [FunctionSpace.EssentialBC('s0', 0), FunctionSpace.EssentialBC('s1', 1)])
     rs = onp.random.RandomState(cfg['seed'] % (1 << 31))
     def admissible(W):
         # the property quantifies over displacement fields that keep the elements uninverted: det F > 0 at every quadrature point
@@ -295,7 +443,7 @@ def run_l2(cfg):
         fac = cfg['factory']
         try:
             if fac == 'create_dynamics_functions':
-                fns = Mechanics.create_dynamics_functions(fs, 'plane strain', mat, Mechanics.NewmarkParameters(), pressureProjectionDegree=cfg['degree'])
+                fns = Mechanics.create_dynamics_functions(fs, cfg['mode'], mat, Mechanics.NewmarkParameters(), pressureProjectionDegree=cfg['degree'])
                 q = fns.compute_initial_state()
                 K = asm(fns.compute_element_hessians(U, UP, q, dt))
                 H = jax.hessian(lambda x: fns.compute_algorithmic_energy(dm.create_field(x, Ubc), UP, q, dt))(Uu)
@@ -303,11 +451,11 @@ def run_l2(cfg):
                 if fac == 'create_multi_block_mechanics_functions':
                     fns = Mechanics.create_multi_block_mechanics_functions(fs, 'plane strain', {'block_0': mat}, pressureProjectionDegree=cfg['degree'])
                 else:
-                    fns = Mechanics.create_mechanics_functions(fs, 'plane strain', mat, pressureProjectionDegree=cfg['degree'])
+                    fns = Mechanics.create_mechanics_functions(fs, cfg['mode'], mat, pressureProjectionDegree=cfg['degree'])
                 q = fns.compute_initial_state()
                 K = asm(fns.compute_element_stiffnesses(U, q))
                 H = jax.hessian(lambda x: fns.compute_strain_energy(dm.create_field(x, Ubc), q))(Uu)
-            _cmp('pressure projection degree %d via %s' % (cfg['degree'], fac), K, H, bad, info)
+            _cmp('pressure projection degree %d via %s (%s)' % (cfg['degree'], fac, cfg['mode']), K, H, bad, info)
         except Exception as ex:
             info['error'] = '%s: %s' % (type(ex).__name__, str(ex)[:160])
             bad.append('advertised option pressureProjectionDegree=%d of Mechanics.%s is unusable: %s' % (cfg['degree'], fac, info['error']))
@@ -321,6 +469,22 @@ def run_l2(cfg):
         K = asm(fns.compute_element_stiffnesses(U, q, dt))
         H = jax.hessian(lambda x: fns.compute_strain_energy(dm.create_field(x, Ubc), q, dt))(Uu)
         _cmp('static %s %s order %d' % (cfg['material'], cfg['mode'], cfg['order']), K, H, bad, info)
+        if cfg.get('twice'):
+            # multi-call history: the same function objects at a second displacement, and a second assembly with a DIFFERENT
+            # DofManager that has the same number of unknowns / constrained dofs and the same array shapes
+            from optimism import FunctionSpace as FS
+            U2 = 0.5 * UP
+            K2 = asm(fns.compute_element_stiffnesses(U2, q, dt))
+            H2 = jax.hessian(lambda x: fns.compute_strain_energy(dm.create_field(x, dm.get_bc_values(U2)), q, dt))(dm.get_unknown_values(U2))
+            _cmp('second call (same functions, other displacement)', K2, H2, bad, info)
+            dm2 = FS.DofManager(fs, 2, [FS.EssentialBC('s0', 1), FS.EssentialBC('s1', 0)])
+            info['equal_counts'] = [int(dm.get_unknown_size()), int(dm2.get_unknown_size())]
+            K3 = SparseMatrixAssembler.assemble_sparse_stiffness_matrix(fns.compute_element_stiffnesses(U, q, dt), mesh.conns, dm2).toarray()
+            H3 = jax.hessian(lambda x: fns.compute_strain_energy(dm2.create_field(x, dm2.get_bc_values(U)), q, dt))(dm2.get_unknown_values(U))
+            _cmp('second assembly with another DofManager of equal counts', K3, H3, bad, info)
+            K1 = asm(fns.compute_element_stiffnesses(U, q, dt))
+            if float(onp.abs(K1 - K).max()) > 0:
+                bad.append('re-assembling with the first DofManager after using a second one gives a different matrix')
     elif kind == 'multiblock':
         single = Mechanics.create_mechanics_functions(fs, 'plane strain', mat)
         multi = Mechanics.create_multi_block_mechanics_functions(fs, 'plane strain', {k: mat for k in mesh.blocks})
@@ -332,6 +496,7 @@ def run_l2(cfg):
             if qs1.shape != qm1.shape or d > 1e-12 * max(1.0, float(onp.abs(onp.asarray(qs1)).max())):
                 bad.append('multi-block internal-variable update differs from the single-block one by %.3g' % d)
             qs, qm = qs1, qm1
+        info['blocks'] = LAST.get('blocks')
         Es, Em = float(single.compute_strain_energy(U, qs, dt)), float(multi.compute_strain_energy(U, qm, dt))
         info['energies'] = [Es, Em]
         if abs(Es - Em) > 1e-12 * max(1.0, abs(Es)):
@@ -345,7 +510,8 @@ def run_l2(cfg):
             H = jax.hessian(lambda x: multi.compute_strain_energy(dm.create_field(x, Ubc), qm, dt))(Uu)
             _cmp('multi-block %s (%d blocks)' % (cfg['material'], cfg['nblocks']), Km, H, bad, info)
     elif kind == 'newmark':
-        fns = Mechanics.create_dynamics_functions(fs, cfg['mode'], mat, Mechanics.NewmarkParameters())
+        dt = cfg.get('dt', dt)
+        fns = Mechanics.create_dynamics_functions(fs, cfg['mode'], mat, Mechanics.NewmarkParameters(gamma=cfg.get('gamma', 0.5), beta=cfg.get('beta', 0.25)))
         q = fns.compute_initial_state()
         if cfg['material'] == 'j2':
             q = fns.compute_updated_internal_variables(U0, q, dt)
@@ -361,6 +527,13 @@ def run_l2(cfg):
         M = asm(fns.compute_element_masses())
         if float(onp.abs(M - M.T).max()) > RTOL * max(1.0, float(onp.abs(M).max())):
             bad.append('assembled mass matrix not symmetric')
+        # the mass matrix is the Hessian of the kinetic energy w.r.t. the unknown velocities
+        V = UP
+        HM = onp.asarray(jax.hessian(lambda x: fns.compute_output_kinetic_energy(dm.create_field(x, dm.get_bc_values(V))))(dm.get_unknown_values(V)))
+        dM = float(onp.abs(M - HM).max()) if M.size else 0.0
+        info['max|M-d2KE|'] = dM
+        if dM > RTOL * max(1.0, float(onp.abs(HM).max()) if HM.size else 1.0):
+            bad.append('assembled mass matrix differs from the Hessian of the kinetic energy by %.3g' % dM)
     return bad, info
 
 
@@ -419,6 +592,23 @@ def correspondence(ctx, model_ok, l2_cfgs=None, do_l1=True):
                 ctx.fail('conclusion', 'assembly of integer blocks (%d nodes, %d fields, %s BCs): %s' % (o['nNodes'], o['dim'], case['kind'], b),
                          case=dict(layer='l1', **case), concrete=True)
         ctx.count('assembly_cases', len(outs))
+    # ---- gather semantics of evaluate_on_block / integrate_over_block (exact, integer data)
+    gouts = []
+    if do_l1:
+        for gc in gen_gather(ctx):
+            ctx.count('evaluations')
+            try:
+                go = run_gather(gc)
+            except Exception as ex:
+                ctx.fail('conclusion', 'evaluate_on_block/integrate_over_block raised %s: %s for a %s block' % (type(ex).__name__, str(ex)[:200], gc['form']),
+                         case=dict(layer='gather', **gc), concrete=True)
+                continue
+            gouts.append((gc, go))
+            if len(go['ids']) > 1 and go['ids'] != sorted(go['ids']):
+                distinct.add(('gather', gc['seed']))
+            for b in gather_conclusions(go):
+                ctx.fail('conclusion', 'block %s (%s): %s' % (go['ids'], gc['form'], b), case=dict(layer='gather', **gc), concrete=True)
+        ctx.count('gather_cases', len(gouts))
     # ---- L2: K vs dense Hessian on the real mechanics functions
     cfgs = l2_cfgs if l2_cfgs is not None else gen_l2(ctx)
     hist = {}
@@ -463,6 +653,15 @@ def correspondence(ctx, model_ok, l2_cfgs=None, do_l1=True):
         if list(g) != list(m):
             nm += 1
             ctx.fail('correspondence', 'block scatter model %s differs from jnp .at[ids].set loop %s' % (m, g), case=dict(layer='scatter', **c))
+    zll = lambda ll: '[' + '; '.join(zl(x) for x in ll) + ']'
+    res = C.coq_eval(IMPORTS, ['run_gather_case %s %s %s' % (zll(go['kv']), zll(go['vl']), zl(go['ids'])) for (_, go) in gouts], 'C02g', shard=200)
+    for (gc, go), zs in zip(gouts, res):
+        parts = D.unpack(zs)
+        ctx.count('model_vs_impl_comparisons', 2)
+        if list(parts[0]) != go['vals'] or [float(parts[1][0])] != [go['integ']]:
+            nm += 1
+            ctx.fail('correspondence', 'gather model and evaluate_on_block/integrate_over_block disagree for block %s (%s): model %s / %s, impl %s / %s'
+                     % (go['ids'], gc['form'], str(list(parts[0]))[:80], parts[1], str(go['vals'])[:80], go['integ']), case=dict(layer='gather', **gc))
     ctx.count('model_vs_impl_mismatches', nm)
 
 
@@ -528,6 +727,14 @@ def replay(ctx, path):
         except Exception as ex:
             bad, info = ['raised %r' % ex], {}
         print('implementation now:', bad or 'conclusion holds', info)
+        return 1 if bad else 0
+    if case.get('layer') == 'gather':
+        gc = {k: v for k, v in case.items() if k != 'layer'}
+        try:
+            bad = gather_conclusions(run_gather(gc))
+        except Exception as ex:
+            bad = ['raised %r' % ex]
+        print('implementation now:', bad or 'gather semantics hold')
         return 1 if bad else 0
     if case.get('layer') == 'scatter':
         g = run_scatter(case)
